@@ -323,6 +323,23 @@ func init() {
 					}
 				}
 			}
+			// every one of the 4096 permission-bit patterns as an explicit mode, on files and on directories (chunks of 512)
+			for chunk := 0; chunk < 8; chunk++ {
+				var fl, dl []model.Entry
+				for m := chunk * 512; m < (chunk+1)*512; m++ {
+					if m == 0 {
+						continue // mode 0 means "not set"
+					}
+					fl = append(fl, model.Entry{Src: "etc/empty", Dst: fmt.Sprintf("/modes/f%04o", m), Mode: os.FileMode(m)})
+					dl = append(dl, model.Entry{Dst: fmt.Sprintf("/modes/d%04o", m), Type: "dir", Mode: os.FileMode(m)})
+				}
+				if !yield(C01Case{Setting: sets[0], List: fl}) {
+					return
+				}
+				if !yield(C01Case{Setting: Setting{Name: "umask=077", Umask: 0o077}, List: dl}) {
+					return
+				}
+			}
 			// pairs under every setting (compression settings: pairs of untagged templates only)
 			for _, s := range sets {
 				for i, a := range all {
